@@ -173,6 +173,7 @@ table_read_offset_array(
     PyArrayObject *array = NULL;
     npy_intp *shape;
     uint64_t *data;
+    size_t j;
 
     array
         = (PyArrayObject *) PyArray_FROMANY(input, NPY_UINT64, 1, 1, NPY_ARRAY_IN_ARRAY);
@@ -197,6 +198,17 @@ table_read_offset_array(
     if (data[*num_rows] != (uint64_t) length) {
         PyErr_SetString(PyExc_ValueError, "Bad offset column encoding");
         goto out;
+    }
+    /* Check the offsets here, before the table is cleared or appended to */
+    if (data[0] != 0) {
+        handle_tskit_error(TSK_ERR_BAD_OFFSET);
+        goto out;
+    }
+    for (j = 0; j < *num_rows; j++) {
+        if (data[j] > data[j + 1]) {
+            handle_tskit_error(TSK_ERR_BAD_OFFSET);
+            goto out;
+        }
     }
     ret = array;
 out:
